@@ -168,11 +168,60 @@ func ruleArgCheck(c *Ctx, rule string, aligners []string) {
 			key := "align." + a + ".Align/" + e
 			if pos, ok := returnsErr(p, entry.Body, e); ok {
 				c.ok(rule, key, pos, "argument check present")
+			} else if pos := errViaHelper(p, entry.Body, e); pos.IsValid() {
+				c.ok(rule, key, pos, "argument check present in a helper of the package whose error the entry point hands back at once")
 			} else {
 				c.bad(rule, key, entry.Pos(), "the entry point never returns "+e+" (the other aligners do): the corresponding ill-typed argument reaches the dynamic-programming code")
 			}
 		}
 	}
+}
+
+// errViaHelper: a top-level statement of body calls a helper of the package that returns errName, and the
+// next statement returns when the helper's error is set.
+func errViaHelper(p *packages.Package, body *ast.BlockStmt, errName string) token.Pos {
+	for i, st := range body.List {
+		as, ok := st.(*ast.AssignStmt)
+		if !ok || len(as.Rhs) != 1 || i+1 >= len(body.List) || len(as.Lhs) == 0 {
+			continue
+		}
+		call, ok := unparen(as.Rhs[0]).(*ast.CallExpr)
+		if !ok {
+			continue
+		}
+		h := helperDecl(p, call)
+		if h == nil {
+			continue
+		}
+		pos, found := returnsErr(p, h.Body, errName)
+		if !found {
+			continue
+		}
+		errID, ok := as.Lhs[len(as.Lhs)-1].(*ast.Ident)
+		if !ok || errID.Name == "_" {
+			continue
+		}
+		ifs, ok := body.List[i+1].(*ast.IfStmt)
+		if !ok || ifs.Init != nil {
+			continue
+		}
+		be, ok := unparen(ifs.Cond).(*ast.BinaryExpr)
+		if !ok || be.Op != token.NEQ {
+			continue
+		}
+		x, ok := unparen(be.X).(*ast.Ident)
+		if !ok || p.TypesInfo.ObjectOf(x) != p.TypesInfo.ObjectOf(errID) {
+			continue
+		}
+		if len(ifs.Body.List) > 0 {
+			if ret, isRet := ifs.Body.List[len(ifs.Body.List)-1].(*ast.ReturnStmt); isRet && len(ret.Results) > 0 {
+				if r, ok := unparen(ret.Results[len(ret.Results)-1]).(*ast.Ident); ok && p.TypesInfo.ObjectOf(r) == p.TypesInfo.ObjectOf(errID) {
+					return pos
+				}
+			}
+		}
+	}
+	return token.NoPos
 }
 
 // ---- sibling ----------------------------------------------------------------------
